@@ -27,6 +27,7 @@ Proof.
   - apply ptype_eqb_eq in H. congruence.
   - apply String.eqb_eq in H. congruence.
   - apply String.eqb_eq in H. congruence.
+  - apply String.eqb_eq in H. congruence.
 Qed.
 
 Lemma pval_eqb_eq a b : pval_eqb a b = true -> a = b.
@@ -124,34 +125,85 @@ Proof.
   apply (in_map (fun e => fst (snd e))) in Hin. exact Hin.
 Qed.
 
-Lemma resolve_w_tag pre it f it' : resolve_w pre it f = RItem it' -> In (i_tag it') (tags_of_item it).
+Lemma resolve_w_tag E pre it f it' : item_ok E it = true -> resolve_w pre it f = RItem it' ->
+  forall t, In t (ktags E (i_tag it') (i_kind it')) -> In t (tags_of_item E it).
 Proof.
-  unfold resolve_w, tags_of_item. destruct (i_by it) as [b|]; [|intros H; injection H as <-; left; reflexivity].
-  intros H. apply resolve_k_item in H. tauto.
+  unfold resolve_w, tags_of_item, item_ok. destruct (i_by it) as [b|].
+  - intros Hok H t Ht. apply andb_prop in Hok as [Hok _]. apply andb_prop in Hok as [Hok _].
+    apply resolve_k_item in H as (_ & _ & q & tag & k & Hin & Htag & Hk).
+    rewrite forallb_forall in Hok. specialize (Hok _ Hin). cbn in Hok.
+    apply andb_prop in Hok as [_ Hnt]. apply negb_true_iff in Hnt.
+    rewrite Hk in Ht. unfold ktags in Ht. destruct k; try discriminate;
+      (destruct Ht as [<-|[]]; rewrite Htag; apply (in_map (fun e => fst (snd e))) in Hin; exact Hin).
+  - intros _ H t Ht. injection H as <-. unfold ktags in Ht. destruct (i_kind it); exact Ht.
 Qed.
 
 Lemma resolve_k_ok E key b it it' :
-  forallb (fun e => tag_ok (fst (snd e)) && kind_ok E (snd (snd e))) (by_table b) = true ->
-  resolve_k key b it = RItem it' -> tag_ok (i_tag it') = true /\ i_mult it' = i_mult it.
+  forallb (fun e => tag_ok (fst (snd e)) && kind_ok E (snd (snd e)) && negb (is_tagged (snd (snd e)))) (by_table b) = true ->
+  resolve_k key b it = RItem it' ->
+  tag_ok' (i_tag it') (i_kind it') = true /\ i_mult it' = i_mult it /\ is_tagged (i_kind it') = false /\ i_by it' = None.
 Proof.
-  intros Hok H. apply resolve_k_item in H as (_ & Hm & q & tag & k & Hin & -> & _).
-  rewrite forallb_forall in Hok. specialize (Hok _ Hin). cbn in Hok. apply andb_prop in Hok as [Hok _]. auto.
+  intros Hok H. pose proof H as H'. apply resolve_k_item in H as (_ & Hm & q & tag & k & Hin & -> & ->).
+  rewrite forallb_forall in Hok. specialize (Hok _ Hin). cbn in Hok.
+  apply andb_prop in Hok as [Hok Hnt]. apply andb_prop in Hok as [Hok _]. apply negb_true_iff in Hnt.
+  unfold tag_ok'. rewrite Hok, orb_true_r. repeat split; try assumption.
+  unfold resolve_k in H'. destruct key; [|destruct (by_skip_if_absent b); discriminate].
+  destruct (find _ _) as [[? [? ?]]|]; [|discriminate]. injection H' as <-. reflexivity.
+Qed.
+
+Lemma item_ok_plain E it : item_ok E it = true -> i_by it = None ->
+  tag_ok' (i_tag it) (i_kind it) = true.
+Proof.
+  intros Hok Hby. unfold item_ok in Hok. rewrite Hby in Hok. unfold tag_ok'.
+  destruct (i_kind it); cbn; try reflexivity; apply andb_prop in Hok as [Hok _]; exact Hok.
 Qed.
 
 Lemma resolve_w_ok E pre it f it' : item_ok E it = true -> resolve_w pre it f = RItem it' ->
-  tag_ok (i_tag it') = true /\ i_mult it' = i_mult it.
+  tag_ok' (i_tag it') (i_kind it') = true /\ i_mult it' = i_mult it /\
+  (is_tagged (i_kind it') = true -> it' = it) /\ i_by it' = None.
 Proof.
-  unfold resolve_w, item_ok. destruct (i_by it) as [b|].
-  - intros Hok. apply andb_prop in Hok as [Hok _]. apply (resolve_k_ok E). exact Hok.
-  - intros Hok H; injection H as <-. apply andb_prop in Hok as [Hok _]. auto.
+  intros Hok. pose proof Hok as Hok0. unfold resolve_w. unfold item_ok in Hok. destruct (i_by it) as [b|] eqn:Eb.
+  - apply andb_prop in Hok as [Hok _]. apply andb_prop in Hok as [Hok _].
+    intros H. destruct (resolve_k_ok E _ b it it' Hok H) as (H1 & H2 & H3 & H4).
+    repeat split; try assumption. intros Ht. congruence.
+  - intros H; injection H as <-. repeat split; auto. apply (item_ok_plain E); assumption.
 Qed.
 
 Lemma resolve_r_ok E pre it bs it' : item_ok E it = true -> resolve_r pre it bs = RItem it' ->
-  tag_ok (i_tag it') = true /\ i_mult it' = i_mult it.
+  tag_ok' (i_tag it') (i_kind it') = true /\ i_mult it' = i_mult it /\
+  (is_tagged (i_kind it') = true -> it' = it) /\ i_by it' = None.
 Proof.
-  unfold resolve_r, item_ok. destruct (i_by it) as [b|].
-  - intros Hok. apply andb_prop in Hok as [Hok _]. apply (resolve_k_ok E). exact Hok.
-  - intros Hok H; injection H as <-. apply andb_prop in Hok as [Hok _]. auto.
+  intros Hok. pose proof Hok as Hok0. unfold resolve_r. unfold item_ok in Hok. destruct (i_by it) as [b|] eqn:Eb.
+  - apply andb_prop in Hok as [Hok _]. apply andb_prop in Hok as [Hok _].
+    intros H. destruct (resolve_k_ok E _ b it it' Hok H) as (H1 & H2 & H3 & H4).
+    repeat split; try assumption. intros Ht. congruence.
+  - intros H; injection H as <-. repeat split; auto. apply (item_ok_plain E); assumption.
+Qed.
+
+Lemma resolve_k_item_ok E key b it it' :
+  forallb (fun e => tag_ok (fst (snd e)) && kind_ok E (snd (snd e)) && negb (is_tagged (snd (snd e)))) (by_table b) = true ->
+  resolve_k key b it = RItem it' -> item_ok E it' = true.
+Proof.
+  intros Hok H. destruct (resolve_k_ok E key b it it' Hok H) as (_ & _ & Hnt & Hby).
+  apply resolve_k_item in H as (_ & _ & q & tag & k & Hin & Htag & Hk).
+  rewrite forallb_forall in Hok. specialize (Hok _ Hin). cbn in Hok.
+  apply andb_prop in Hok as [Hok _]. apply andb_prop in Hok as [Ht Hkk].
+  unfold item_ok. rewrite Hby, Htag, Hk. rewrite Hk in Hnt.
+  destruct k; try discriminate; rewrite Ht, Hkk; reflexivity.
+Qed.
+
+Lemma resolve_w_item_ok E pre it f it' : item_ok E it = true -> resolve_w pre it f = RItem it' -> item_ok E it' = true.
+Proof.
+  intros Hok. pose proof Hok as Hok0. unfold resolve_w. unfold item_ok in Hok. destruct (i_by it) as [b|].
+  - apply andb_prop in Hok as [Hok _]. apply andb_prop in Hok as [Hok _]. apply resolve_k_item_ok. exact Hok.
+  - intros H; injection H as <-. exact Hok0.
+Qed.
+
+Lemma resolve_r_item_ok E pre it bs it' : item_ok E it = true -> resolve_r pre it bs = RItem it' -> item_ok E it' = true.
+Proof.
+  intros Hok. pose proof Hok as Hok0. unfold resolve_r. unfold item_ok in Hok. destruct (i_by it) as [b|].
+  - apply andb_prop in Hok as [Hok _]. apply andb_prop in Hok as [Hok _]. apply resolve_k_item_ok. exact Hok.
+  - intros H; injection H as <-. exact Hok0.
 Qed.
 
 (* a dispatched-on-the-next-type item is required and never silently skipped *)
@@ -177,34 +229,55 @@ Section Generic.
 Variable E : env.
 Variable v : Z.
 
-Lemma wr_starts fuel tag k x bs : wr E v fuel tag k x = Some bs -> exists r, bs = be_enc 3 tag ++ tyc x :: r.
+Lemma find_row_in t tag k' : find_row E v t tag = Some k' ->
+  exists r, In r (find_table E t) /\ row_tag r = tag /\ row_kind r = k'.
 Proof.
-  destruct fuel as [|f]; [discriminate|]. cbn [wr].
-  destruct k as [t|e|c]; destruct x as [p|fields]; try discriminate.
+  unfold find_row. destruct (find _ _) as [r|] eqn:Ef; [|discriminate]. intros H; injection H as <-.
+  apply find_some in Ef as [Hin Ht]. apply filter_In in Hin as [Hin _]. apply Z.eqb_eq in Ht. eauto.
+Qed.
+
+Lemma wr_starts : forall fuel tag k x bs, wr E v fuel tag k x = Some bs ->
+  exists r, bs = be_enc 3 (etag tag k x) ++ tyc x :: r.
+Proof.
+  induction fuel as [|f IH]; intros tag k x bs; [discriminate|]. cbn [wr].
+  destruct k as [t|e|c|t]; destruct x as [p|fields|tg y]; try discriminate; cbn [etag tyc].
   - destruct (ptype_eqb (ptype_of p) t && negb (ptype_eqb t PEnum)); [|discriminate]. apply enc_prim_starts.
   - destruct p; try discriminate. apply enc_prim_starts.
   - destruct (find_cls E c) as [k|]; [|discriminate].
     destruct (wr_items _ _ _ _) as [body|]; [|discriminate]. apply with_hdr_starts.
+  - destruct (find_row E v t tg) as [k'|]; [|discriminate].
+    destruct (is_tagged k') eqn:Ek; [discriminate|]. intros H. apply IH in H as [r ->].
+    exists r. destruct k'; try discriminate; reflexivity.
+Qed.
+
+Lemma wr_etag fuel tag k x bs : wr E v fuel tag k x = Some bs -> In (etag tag k x) (ktags E tag k).
+Proof.
+  destruct fuel as [|f]; [discriminate|]. cbn [wr].
+  destruct k as [t|e|c|t]; destruct x as [p|fields|tg y]; try discriminate; cbn [etag ktags]; try (intros _; left; reflexivity).
+  destruct (find_row E v t tg) as [k'|] eqn:Ef; [|discriminate]. intros _.
+  destruct (find_row_in _ _ _ Ef) as (r & Hin & <- & _). apply in_map. exact Hin.
 Qed.
 
 (* the concatenated encodings of one field's occurrences *)
 Lemma field_starts (wrf : Z -> kind -> value -> option bytes) tag k xs bs :
-  (forall x b, wrf tag k x = Some b -> exists r, b = be_enc 3 tag ++ r) ->
-  opt_concat (map (wrf tag k) xs) = Some bs -> bs = [] \/ exists r, bs = be_enc 3 tag ++ r.
+  (forall x b, wrf tag k x = Some b -> exists t r, In t (ktags E tag k) /\ b = be_enc 3 t ++ r) ->
+  opt_concat (map (wrf tag k) xs) = Some bs ->
+  bs = [] \/ exists t r, In t (ktags E tag k) /\ bs = be_enc 3 t ++ r.
 Proof.
   intros Hs. destruct xs as [|x xs]; cbn [map]; intros H.
   - cbn in H. injection H as <-. left; reflexivity.
   - apply opt_concat_cons_some in H as (b & r & Hb & _ & ->).
-    apply Hs in Hb as [r' ->]. right. rewrite <- app_assoc. eauto.
+    apply Hs in Hb as (t & r' & Ht & ->). right. exists t, (r' ++ r). rewrite <- app_assoc. auto.
 Qed.
 
 (* the encodings of a list of items start with one of the tags those items can take, or are empty *)
 Lemma wr_items_start (wrf : Z -> kind -> value -> option bytes) items : forall pre fields body,
-  (forall tag k x b, wrf tag k x = Some b -> exists r, b = be_enc 3 tag ++ r) ->
+  (forall tag k x b, wrf tag k x = Some b -> exists t r, In t (ktags E tag k) /\ b = be_enc 3 t ++ r) ->
+  (forall it, In it items -> item_ok E it = true) ->
   wr_items wrf pre items fields = Some body ->
-  body = [] \/ exists t r, In t (List.concat (map tags_of_item items)) /\ body = be_enc 3 t ++ r.
+  body = [] \/ exists t r, In t (List.concat (map (tags_of_item E) items)) /\ body = be_enc 3 t ++ r.
 Proof.
-  induction items as [|it items IH]; intros pre fields body Hs H.
+  induction items as [|it items IH]; intros pre fields body Hs Hok H.
   - destruct fields; cbn in H; [injection H as <-; left; reflexivity|discriminate].
   - destruct fields as [|fs fields]; [cbn in H; discriminate|]. cbn [wr_items] in H.
     cbn [map List.concat].
@@ -214,30 +287,67 @@ Proof.
       unfold enc_field in Eb. cbn [fst snd] in Eb.
       destruct (mult_ok (i_mult it') (List.length fs)); [|discriminate].
       apply (field_starts wrf) in Eb; [|intros; eapply Hs; eassumption].
-      destruct Eb as [->|[r' ->]].
-      * cbn [app]. destruct (IH _ _ _ Hs Ew) as [->|(t & r' & Hin & ->)]; [left; reflexivity|].
+      assert (Hok' : forall it0, In it0 items -> item_ok E it0 = true) by (intros; apply Hok; right; assumption).
+      destruct Eb as [->|(t0 & r' & Ht0 & ->)].
+      * cbn [app]. destruct (IH _ _ _ Hs Hok' Ew) as [->|(t & r' & Hin & ->)]; [left; reflexivity|].
         right. exists t, r'. split; [apply in_or_app; right; exact Hin|reflexivity].
-      * right. exists (i_tag it'), (r' ++ r). split; [|rewrite app_assoc; reflexivity].
-        apply in_or_app; left. eapply resolve_w_tag; exact Er.
+      * right. exists t0, (r' ++ r). split; [|rewrite app_assoc; reflexivity].
+        apply in_or_app; left. eapply resolve_w_tag; [apply Hok; left; reflexivity|exact Er|exact Ht0].
     + destruct fs; [|discriminate].
-      destruct (IH _ _ _ Hs H) as [->|(t & r' & Hin & ->)]; [left; reflexivity|].
+      assert (Hok' : forall it0, In it0 items -> item_ok E it0 = true) by (intros; apply Hok; right; assumption).
+      destruct (IH _ _ _ Hs Hok' H) as [->|(t & r' & Hin & ->)]; [left; reflexivity|].
       right. exists t, r'. split; [apply in_or_app; right; exact Hin|reflexivity].
 Qed.
 
 (* every tag an item of a checked list can take is a legal tag *)
+Lemma tags_of_item_ok it t : item_ok E it = true -> In t (tags_of_item E it) -> tag_ok t = true.
+Proof.
+  intros Hok Hj. unfold item_ok, tags_of_item in *.
+  destruct (i_by it) as [bj|].
+  - apply andb_prop in Hok as [Hok _]. apply andb_prop in Hok as [Hok _].
+    apply in_map_iff in Hj as (e & <- & He). rewrite forallb_forall in Hok.
+    specialize (Hok e He). apply andb_prop in Hok as [Hok _]. apply andb_prop in Hok as [Hk _]. exact Hk.
+  - destruct (i_kind it) as [ | | |tb].
+    1-3: (destruct Hj as [<-|[]]; apply andb_prop in Hok as [Hk _]; exact Hk).
+    apply in_map_iff in Hj as (r & <- & Hr). rewrite forallb_forall in Hok. specialize (Hok r Hr).
+    unfold row_ok in Hok. apply andb_prop in Hok as [Hok _]. apply andb_prop in Hok as [Hok _].
+    apply andb_prop in Hok as [Hok _]. exact Hok.
+Qed.
+
 Lemma tags_of_items_ok items t :
   (forall it, In it items -> item_ok E it = true) ->
-  In t (List.concat (map tags_of_item items)) -> tag_ok t = true.
+  In t (List.concat (map (tags_of_item E) items)) -> tag_ok t = true.
 Proof.
   induction items as [|j items IHi]; intros Hok Hin; [destruct Hin|].
   cbn [map List.concat] in Hin. apply in_app_or in Hin as [Hj|Hr].
-  - specialize (Hok j (or_introl eq_refl)). unfold item_ok, tags_of_item in *.
-    destruct (i_by j) as [bj|].
-    + apply andb_prop in Hok as [Hok _].
-      apply in_map_iff in Hj as (e & <- & He). rewrite forallb_forall in Hok.
-      specialize (Hok e He). apply andb_prop in Hok as [Hk _]. exact Hk.
-    + destruct Hj as [<-|[]]. apply andb_prop in Hok as [Hk _]. exact Hk.
+  - eapply tags_of_item_ok; [apply Hok; left; reflexivity|exact Hj].
   - apply IHi; [intros; apply Hok; right; assumption|exact Hr].
+Qed.
+
+(* what was written for an item is recognised as "next" by the reader *)
+Lemma next_ok_enc it t r : item_ok E it = true -> i_by it = None ->
+  In t (ktags E (i_tag it) (i_kind it)) -> next_ok E it (be_enc 3 t ++ r) = true.
+Proof.
+  intros Hok Hby Ht. unfold next_ok. unfold item_ok in Hok. rewrite Hby in Hok. unfold ktags in Ht.
+  destruct (i_kind it) as [ | | |tb].
+  1-3: (destruct Ht as [<-|[]]; apply andb_prop in Hok as [Hk _]; rewrite is_tag_next_tag by exact Hk; apply Z.eqb_refl).
+  apply in_map_iff in Ht as (rw & <- & Hr). rewrite forallb_forall in Hok. specialize (Hok rw Hr).
+  unfold row_ok in Hok. apply andb_prop in Hok as [Hok _]. apply andb_prop in Hok as [Hok _].
+  apply andb_prop in Hok as [Htag Hmem].
+  rewrite (take_exact_app' 3 (be_enc 3 (row_tag rw))) by (rewrite zlen_be_enc; reflexivity).
+  rewrite be_dec_enc; [exact Hmem|]. unfold tag_ok in Htag. rewrite p3. lia.
+Qed.
+
+Lemma next_ok_nil it : next_ok E it [] = false.
+Proof. unfold next_ok. destruct (i_kind it); reflexivity. Qed.
+
+Lemma tagged_lastb_filter (f : item -> bool) items : tagged_lastb items = true -> tagged_lastb (filter f items) = true.
+Proof.
+  induction items as [|it items IH]; intros H; [reflexivity|]. cbn [tagged_lastb] in H.
+  apply andb_prop in H as [H1 H2]. cbn [filter]. destruct (f it); [|apply IH; exact H2].
+  cbn [tagged_lastb]. rewrite (IH H2), andb_true_r.
+  destruct (negb (is_tagged (i_kind it) && peeks (i_mult it))) eqn:En; [reflexivity|]. cbn in H1.
+  destruct items; [reflexivity|discriminate].
 Qed.
 
 (* ---------------------------------------------------------------- reading back one field *)
@@ -246,37 +356,39 @@ Section Field.
 Variable wrf : Z -> kind -> value -> option bytes.
 Variable rdf : Z -> kind -> bytes -> option (value * bytes).
 Variable wff : kind -> value -> bool.
-Hypothesis wrf_starts : forall tag k x b, wrf tag k x = Some b -> exists r, b = be_enc 3 tag ++ tyc x :: r.
+Hypothesis wrf_starts : forall tag k x b, wrf tag k x = Some b -> exists r, b = be_enc 3 (etag tag k x) ++ tyc x :: r.
+Hypothesis wrf_etag : forall tag k x b, wrf tag k x = Some b -> In (etag tag k x) (ktags E tag k).
 (* element-level round trip (the induction hypothesis of the main theorem) *)
-Hypothesis elt_rt : forall tag k x b, tag_ok tag = true -> wff k x = true ->
+Hypothesis elt_rt : forall tag k x b, tag_ok' tag k = true -> wff k x = true ->
                                      wrf tag k x = Some b -> forall r, rdf tag k (b ++ r) = Some (x, r).
 
-Lemma wrf_starts_w tag k x b : wrf tag k x = Some b -> exists r, b = be_enc 3 tag ++ r.
-Proof. intros H. destruct (wrf_starts _ _ _ _ H) as [r ->]. eauto. Qed.
+Lemma wrf_starts_w tag k x b : wrf tag k x = Some b -> exists t r, In t (ktags E tag k) /\ b = be_enc 3 t ++ r.
+Proof. intros H. destruct (wrf_starts _ _ _ _ H) as [r ->]. exists (etag tag k x). eauto using wrf_etag. Qed.
 
-Lemma rd_many_wr tag k xs : forall bs after lfuel,
-  tag_ok tag = true -> forallb (wff k) xs = true ->
+Lemma rd_many_wr (nxt : bytes -> bool) tag k xs : forall bs after lfuel,
+  tag_ok' tag k = true -> forallb (wff k) xs = true ->
+  (forall t r, In t (ktags E tag k) -> nxt (be_enc 3 t ++ r) = true) ->
   opt_concat (map (wrf tag k) xs) = Some bs ->
-  is_tag_next tag after = false ->
+  nxt after = false ->
   (List.length xs < lfuel)%nat ->
-  rd_many (rdf tag k) tag lfuel (bs ++ after) = Some (xs, after).
+  rd_many (rdf tag k) nxt lfuel (bs ++ after) = Some (xs, after).
 Proof.
-  induction xs as [|x xs IH]; intros bs after lfuel Ht Hwf Henc Hafter Hfuel.
+  induction xs as [|x xs IH]; intros bs after lfuel Ht Hwf Hnx Henc Hafter Hfuel.
   - cbn in Henc. injection Henc as <-. destruct lfuel as [|lf]; [cbn in Hfuel; lia|].
     cbn [rd_many app]. rewrite Hafter. reflexivity.
   - cbn [map] in Henc. apply opt_concat_cons_some in Henc as (b & r & Hb & Hr & ->).
     cbn [forallb] in Hwf. apply andb_prop in Hwf as [Hwx Hwf].
     destruct lfuel as [|lf]; [cbn in Hfuel; lia|]. cbn [rd_many].
-    destruct (wrf_starts_w _ _ _ _ Hb) as [r0 Hb0].
+    destruct (wrf_starts_w _ _ _ _ Hb) as (t0 & r0 & Ht0 & Hb0).
     rewrite <- app_assoc.
-    assert (Hnext : is_tag_next tag (b ++ r ++ after) = true).
-    { rewrite Hb0, <- app_assoc, is_tag_next_tag by exact Ht. apply Z.eqb_refl. }
+    assert (Hnext : nxt (b ++ r ++ after) = true).
+    { rewrite Hb0, <- app_assoc. apply Hnx. exact Ht0. }
     rewrite Hnext. rewrite (elt_rt tag k x b Ht Hwx Hb (r ++ after)).
-    rewrite (IH r after lf Ht Hwf Hr Hafter); [reflexivity|cbn in Hfuel; lia].
+    rewrite (IH r after lf Ht Hwf Hnx Hr Hafter); [reflexivity|cbn in Hfuel; lia].
 Qed.
 
 Lemma rd_counted_wr tag k xs : forall n bs after fuel,
-  tag_ok tag = true -> forallb (wff k) xs = true ->
+  tag_ok' tag k = true -> forallb (wff k) xs = true ->
   opt_concat (map (wrf tag k) xs) = Some bs ->
   Z.of_nat (List.length xs) = Z.max n 0 ->
   (List.length xs < fuel)%nat ->
@@ -299,18 +411,19 @@ Lemma enc_len_le tag k : forall xs bs0, opt_concat (map (wrf tag k) xs) = Some b
 Proof.
   induction xs as [|x xs IHx]; intros bs0 H0; [cbn; lia|].
   cbn [map] in H0. apply opt_concat_cons_some in H0 as (b & r & Hb & Hr & ->).
-  destruct (wrf_starts_w _ _ _ _ Hb) as [r0 ->]. specialize (IHx r Hr).
+  destruct (wrf_starts_w _ _ _ _ Hb) as (t0 & r0 & _ & ->). specialize (IHx r Hr).
   rewrite !app_length, be_enc_length. cbn [List.length]. lia.
 Qed.
 
-Lemma rd_field_wr it cnt fs bs after :
-  tag_ok (i_tag it) = true -> forallb (wff (i_kind it)) fs = true ->
+Lemma rd_field_wr (nxt : bytes -> bool) it cnt fs bs after :
+  tag_ok' (i_tag it) (i_kind it) = true -> forallb (wff (i_kind it)) fs = true ->
   count_ok it cnt (List.length fs) = true ->
+  (forall t r, In t (ktags E (i_tag it) (i_kind it)) -> nxt (be_enc 3 t ++ r) = true) ->
   enc_field wrf (it, fs) = Some bs ->
-  (peeks (i_mult it) = true -> is_tag_next (i_tag it) after = false) ->
-  rd_field (rdf (i_tag it) (i_kind it)) it cnt (bs ++ after) = Some (fs, after).
+  (peeks (i_mult it) = true -> nxt after = false) ->
+  rd_field (rdf (i_tag it) (i_kind it)) nxt it cnt (bs ++ after) = Some (fs, after).
 Proof.
-  intros Ht Hwf Hcnt Henc Hafter. unfold enc_field in Henc. cbn [fst snd] in Henc.
+  intros Ht Hwf Hcnt Hnx Henc Hafter. unfold enc_field in Henc. cbn [fst snd] in Henc.
   destruct (mult_ok (i_mult it) (List.length fs)) eqn:Hm; [|discriminate].
   unfold rd_field. unfold count_ok in Hcnt. destruct (i_mult it) eqn:Em; cbn [peeks] in Hafter.
   - (* Req *)
@@ -318,9 +431,8 @@ Proof.
     cbn [map] in Henc. apply opt_concat_cons_some in Henc as (b & r & Hb & Hr & ->).
     cbn in Hr. injection Hr as <-. rewrite app_nil_r.
     cbn in Hwf. apply andb_prop in Hwf as [Hwx _].
-    destruct (wrf_starts_w _ _ _ _ Hb) as [r0 Hb0].
-    assert (Hnext : is_tag_next (i_tag it) (b ++ after) = true).
-    { rewrite Hb0, <- app_assoc, is_tag_next_tag by exact Ht. apply Z.eqb_refl. }
+    destruct (wrf_starts_w _ _ _ _ Hb) as (t0 & r0 & Ht0 & Hb0).
+    assert (Hnext : nxt (b ++ after) = true) by (rewrite Hb0, <- app_assoc; apply Hnx; exact Ht0).
     rewrite Hnext, (elt_rt _ _ x b Ht Hwx Hb after). reflexivity.
   - (* Opt *)
     specialize (Hafter eq_refl).
@@ -329,9 +441,8 @@ Proof.
     + cbn [map] in Henc. apply opt_concat_cons_some in Henc as (b & r & Hb & Hr & ->).
       cbn in Hr. injection Hr as <-. rewrite app_nil_r.
       cbn in Hwf. apply andb_prop in Hwf as [Hwx _].
-      destruct (wrf_starts_w _ _ _ _ Hb) as [r0 Hb0].
-      assert (Hnext : is_tag_next (i_tag it) (b ++ after) = true).
-      { rewrite Hb0, <- app_assoc, is_tag_next_tag by exact Ht. apply Z.eqb_refl. }
+      destruct (wrf_starts_w _ _ _ _ Hb) as (t0 & r0 & Ht0 & Hb0).
+      assert (Hnext : nxt (b ++ after) = true) by (rewrite Hb0, <- app_assoc; apply Hnx; exact Ht0).
       rewrite Hnext, (elt_rt _ _ x b Ht Hwx Hb after). reflexivity.
   - (* Many *)
     specialize (Hafter eq_refl).
@@ -339,7 +450,7 @@ Proof.
     pose proof (enc_len_le _ _ fs bs Henc). rewrite app_length. lia.
   - (* Many1 *)
     specialize (Hafter eq_refl).
-    rewrite (rd_many_wr (i_tag it) (i_kind it) fs bs after (S (List.length (bs ++ after))) Ht Hwf Henc Hafter).
+    rewrite (rd_many_wr nxt (i_tag it) (i_kind it) fs bs after (S (List.length (bs ++ after))) Ht Hwf Hnx Henc Hafter).
     + destruct fs; [cbn in Hm; discriminate|reflexivity].
     + pose proof (enc_len_le _ _ fs bs Henc). rewrite app_length. lia.
   - (* Counted *)
@@ -382,51 +493,61 @@ Qed.
 (* ---------------------------------------------------------------- reading back an item list *)
 
 Lemma rd_items_wr items : forall pre fields body tail,
-  tags_disjointb items = true ->
+  tags_disjointb E items = true -> tagged_lastb items = true ->
   (forall it, In it items -> item_ok E it = true) ->
   wf_items E v wff pre items fields = true ->
   wr_items wrf pre items fields = Some body ->
-  (forallb (fun it => negb (peeks (i_mult it))) items = true \/
-   forall t, In t (List.concat (map tags_of_item items)) -> is_tag_next t tail = false) ->
+  (forallb (fun it => negb (peeks (i_mult it))) items = true \/ tail = []) ->
   rd_items E v rdf pre items (body ++ tail) = Some (fields, tail).
 Proof.
-  induction items as [|it items IH]; intros pre fields body tail Hdj Hok Hwf Henc Htail.
+  induction items as [|it items IH]; intros pre fields body tail Hdj Htl Hok Hwf Henc Htail.
   - destruct fields; cbn in Henc; [|discriminate]. injection Henc as <-. reflexivity.
   - destruct fields as [|fs fields]; [cbn in Henc; discriminate|].
     cbn [wr_items] in Henc. cbn [wf_items] in Hwf. cbn [rd_items].
     cbn [tags_disjointb] in Hdj. apply andb_prop in Hdj as [Hdj1 Hdj].
+    cbn [tagged_lastb] in Htl. apply andb_prop in Htl as [Htl1 Htl].
     assert (Hok' : forall it', In it' items -> item_ok E it' = true) by (intros; apply Hok; right; assumption).
-    assert (Htail' : forallb (fun it => negb (peeks (i_mult it))) items = true \/
-                     forall t, In t (List.concat (map tags_of_item items)) -> is_tag_next t tail = false).
-    { destruct Htail as [Hnp|Ht]; [left; cbn in Hnp; apply andb_prop in Hnp; tauto|right].
-      intros t Hin. apply Ht. cbn [map List.concat]. apply in_or_app; right; assumption. }
+    assert (Htail' : forallb (fun it => negb (peeks (i_mult it))) items = true \/ tail = []).
+    { destruct Htail as [Hnp|Ht]; [left; cbn in Hnp; apply andb_prop in Hnp; tauto|right; exact Ht]. }
     pose proof (Hok it (or_introl eq_refl)) as Hokit.
     destruct (resolve_w pre it fs) as [it'| |] eqn:Er; [| |discriminate].
     + destruct (enc_field wrf (it', fs)) as [b|] eqn:Eb; [|discriminate].
       destruct (wr_items wrf (pre ++ [fs]) items fields) as [r|] eqn:Ew; [|discriminate]. injection Henc as <-.
       apply andb_prop in Hwf as [Hwf1 Hwf]. apply andb_prop in Hwf1 as [Hwf1 Hcnt].
-      destruct (resolve_w_ok E pre it fs it' Hokit Er) as [Htag Hmult].
-      pose proof (resolve_w_tag pre it fs it' Er) as Hin.
+      destruct (resolve_w_ok E pre it fs it' Hokit Er) as (Htag & Hmult & Hsame & Hby').
+      pose proof (resolve_w_tag E pre it fs it' Hokit Er) as Hin.
       rewrite <- app_assoc.
       rewrite (resolve_agree_wr pre it fs it' b (r ++ tail) Hokit Er Eb).
-      assert (Hafter : peeks (i_mult it') = true -> is_tag_next (i_tag it') (r ++ tail) = false).
+      pose proof (resolve_w_item_ok E pre it fs it' Hokit Er) as Hokit'.
+      assert (Hnx : forall t r0, In t (ktags E (i_tag it') (i_kind it')) -> next_ok E it' (be_enc 3 t ++ r0) = true)
+        by (intros; apply next_ok_enc; assumption).
+      assert (Hafter : peeks (i_mult it') = true -> next_ok E it' (r ++ tail) = false).
       { intros Hpk. rewrite Hmult in Hpk.
         destruct Htail as [Hnp|Ht].
         { cbn in Hnp. apply andb_prop in Hnp as [Hnp _]. rewrite Hpk in Hnp. discriminate. }
-        destruct (wr_items_start wrf items _ _ _ wrf_starts_w Ew) as [->|(t & r' & Hint & ->)].
-        - cbn [app]. apply Ht. cbn [map List.concat]. apply in_or_app; left; exact Hin.
-        - pose proof (tags_of_items_ok items t Hok' Hint) as Htt.
-          rewrite <- app_assoc, is_tag_next_tag by exact Htt.
-          apply Z.eqb_neq. intros Heq. subst t.
-          rewrite forallb_forall in Hdj1. specialize (Hdj1 _ Hin). apply negb_true_iff in Hdj1.
+        subst tail. rewrite app_nil_r.
+        destruct (is_tagged (i_kind it')) eqn:Etg.
+        - (* a peeking any-attribute item is the last one *)
+          rewrite (Hsame eq_refl) in Etg. rewrite Etg, Hpk in Htl1. cbn in Htl1.
+          destruct items; [|discriminate]. destruct fields; cbn in Ew; [|discriminate]. injection Ew as <-.
+          apply next_ok_nil.
+        - destruct (wr_items_start wrf items _ _ _ wrf_starts_w Hok' Ew) as [->|(t & r' & Hint & ->)];
+            [apply next_ok_nil|].
+          pose proof (tags_of_items_ok items t Hok' Hint) as Htt.
+          assert (Hin' : In (i_tag it') (tags_of_item E it)).
+          { apply Hin. unfold ktags. destruct (i_kind it'); try discriminate; left; reflexivity. }
+          assert (Hnk : next_ok E it' (be_enc 3 t ++ r') = is_tag_next (i_tag it') (be_enc 3 t ++ r')).
+          { unfold next_ok. destruct (i_kind it'); try discriminate; reflexivity. }
+          rewrite Hnk, is_tag_next_tag by exact Htt. apply Z.eqb_neq. intros Heq. subst t.
+          rewrite forallb_forall in Hdj1. specialize (Hdj1 _ Hin'). apply negb_true_iff in Hdj1.
           exact (memb_false_notin _ _ Hdj1 Hint). }
       assert (Hcnt' : count_ok it' (item_count E v pre it) (List.length fs) = true).
       { unfold count_ok in *. rewrite Hmult. exact Hcnt. }
-      rewrite (rd_field_wr it' (item_count E v pre it) fs b (r ++ tail) Htag Hwf1 Hcnt' Eb Hafter).
-      rewrite (IH (pre ++ [fs]) fields r tail Hdj Hok' Hwf Ew Htail'). reflexivity.
+      rewrite (rd_field_wr (next_ok E it') it' (item_count E v pre it) fs b (r ++ tail) Htag Hwf1 Hcnt' Hnx Eb Hafter).
+      rewrite (IH (pre ++ [fs]) fields r tail Hdj Htl Hok' Hwf Ew Htail'). reflexivity.
     + destruct fs; [|discriminate].
       rewrite (resolve_skip_agree pre it (body ++ tail) Hokit Er).
-      rewrite (IH (pre ++ [[]]) fields body tail Hdj Hok' Hwf Henc Htail'). reflexivity.
+      rewrite (IH (pre ++ [[]]) fields body tail Hdj Htl Hok' Hwf Henc Htail'). reflexivity.
 Qed.
 
 End Field.
@@ -438,30 +559,46 @@ Hypothesis HE : env_ok E = true.
 Lemma cls_ok_of c k : find_cls E c = Some k -> cls_ok E k = true.
 Proof.
   unfold find_cls. intros H. apply find_some in H as [Hin _].
-  unfold env_ok in HE. rewrite forallb_forall in HE. apply HE. exact Hin.
+  pose proof HE as HE'. unfold env_ok in HE'. apply andb_prop in HE' as [HE1 _].
+  rewrite forallb_forall in HE1. apply HE1. exact Hin.
+Qed.
+
+Lemma row_facts t tg k' : find_row E v t tg = Some k' ->
+  tag_ok tg = true /\ enum_mem E "Tags" tg = true /\ is_tagged k' = false.
+Proof.
+  intros Hf. destruct (find_row_in _ _ _ Hf) as (r & Hin & <- & <-).
+  pose proof HE as HE'. unfold env_ok in HE'. apply andb_prop in HE' as [_ HE2].
+  unfold find_table in Hin. destruct (find _ (e_tables E)) as [[n rows]|] eqn:Ef; [|destruct Hin].
+  apply find_some in Ef as [Hint _]. rewrite forallb_forall in HE2. specialize (HE2 _ Hint). cbn in HE2.
+  rewrite forallb_forall in HE2. specialize (HE2 _ Hin). unfold row_ok in HE2.
+  apply andb_prop in HE2 as [HE2 _]. apply andb_prop in HE2 as [HE2 Hnt]. apply andb_prop in HE2 as [Ht Hm].
+  apply negb_true_iff in Hnt. auto.
 Qed.
 
 Lemma cls_facts c k : In v VERSIONS -> find_cls E c = Some k ->
-  c_rd k = c_wr k /\ tags_disjointb (filter (active v) (c_rd k)) = true /\
+  c_rd k = c_wr k /\ tags_disjointb E (filter (active v) (c_rd k)) = true /\
   (forall it, In it (filter (active v) (c_rd k)) -> item_ok E it = true) /\
-  (c_substream k = false -> forallb (fun it => negb (peeks (i_mult it))) (filter (active v) (c_rd k)) = true).
+  (c_substream k = false -> forallb (fun it => negb (peeks (i_mult it))) (filter (active v) (c_rd k)) = true) /\
+  tagged_lastb (filter (active v) (c_rd k)) = true.
 Proof.
   intros Hv Ec. pose proof (cls_ok_of c k Ec) as Hk. unfold cls_ok in Hk.
-  apply andb_prop in Hk as [Hk Hsub]. apply andb_prop in Hk as [Hk Hd]. apply andb_prop in Hk as [Hrw Hio].
-  split; [apply items_eqb_eq; exact Hrw|]. split; [|split].
+  apply andb_prop in Hk as [Hk Htl]. apply andb_prop in Hk as [Hk Hsub].
+  apply andb_prop in Hk as [Hk Hd]. apply andb_prop in Hk as [Hrw Hio].
+  split; [apply items_eqb_eq; exact Hrw|]. split; [|split; [|split; [|apply tagged_lastb_filter; exact Htl]]].
   - rewrite forallb_forall in Hd. apply Hd. exact Hv.
   - intros it Hin. apply filter_In in Hin as [Hin _]. rewrite forallb_forall in Hio. apply Hio. exact Hin.
   - intros Hs. rewrite Hs in Hsub. cbn in Hsub. rewrite forallb_forall in *.
     intros it Hin. apply filter_In in Hin as [Hin _]. apply Hsub. exact Hin.
 Qed.
 
-Theorem roundtrip : In v VERSIONS ->
-  forall fuel tag k x bs, tag_ok tag = true -> wfv E v fuel k x = true ->
+Theorem roundtrip' : In v VERSIONS ->
+  forall fuel tag k x bs, tag_ok' tag k = true -> wfv E v fuel k x = true ->
   wr E v fuel tag k x = Some bs -> forall rest, rd E v fuel tag k (bs ++ rest) = Some (x, rest).
 Proof.
   intros Hv. induction fuel as [|f IH]; intros tag k x bs Ht Hwf Hw rest; [discriminate|].
   cbn [wr] in Hw. cbn [wfv] in Hwf. cbn [rd].
-  destruct k as [t|e|c]; destruct x as [p|fields]; try discriminate.
+  destruct k as [t|e|c|t]; destruct x as [p|fields|tg y]; try discriminate;
+    try (unfold tag_ok' in Ht; cbn [is_tagged orb] in Ht).
   - (* primitive *)
     destruct (ptype_eqb (ptype_of p) t && negb (ptype_eqb t PEnum)) eqn:Ep; [|discriminate].
     apply andb_prop in Ep as [Ept Hne]. apply ptype_eqb_eq in Ept. subst t.
@@ -481,7 +618,7 @@ Proof.
     rewrite Hw in Hb'. injection Hb' as <-. cbn [ptype_of] in Hd. rewrite Hd. reflexivity.
   - (* structure *)
     destruct (find_cls E c) as [k|] eqn:Ec; [|discriminate].
-    destruct (cls_facts c k Hv Ec) as (Hrw & Hdj & Hio & Hnp).
+    destruct (cls_facts c k Hv Ec) as (Hrw & Hdj & Hio & Hnp & Htl).
     destruct (wr_items (wr E v f) [] (filter (active v) (c_wr k)) fields) as [body|] eqn:Eb; [|discriminate].
     apply with_hdr_some in Hw as (h & Hh & ->).
     rewrite <- app_assoc.
@@ -492,13 +629,31 @@ Proof.
       { rewrite zlen_app. pose proof (zlen_nonneg rest). unfold zlen in *. lia. }
       rewrite Hn. rewrite firstn_app, Nat.sub_diag, firstn_all. cbn [firstn]. rewrite app_nil_r.
       rewrite skipn_app, Nat.sub_diag, skipn_all. cbn [skipn app].
-      pose proof (rd_items_wr (wr E v f) (rd E v f) (wfv E v f) (fun tag k x b => wr_starts f tag k x b) IH
-                    (filter (active v) (c_wr k)) [] fields body [] Hdj Hio Hwf Eb
-                    (or_intror (fun t _ => is_tag_next_nil t))) as Hitems.
+      pose proof (rd_items_wr (wr E v f) (rd E v f) (wfv E v f) (wr_starts f) (wr_etag f) IH
+                    (filter (active v) (c_wr k)) [] fields body [] Hdj Htl Hio Hwf Eb
+                    (or_intror eq_refl)) as Hitems.
       rewrite app_nil_r in Hitems. rewrite Hitems. rewrite andb_false_r. reflexivity.
-    + rewrite (rd_items_wr (wr E v f) (rd E v f) (wfv E v f) (fun tag k x b => wr_starts f tag k x b) IH
-                    (filter (active v) (c_wr k)) [] fields body rest Hdj Hio Hwf Eb
+    + rewrite (rd_items_wr (wr E v f) (rd E v f) (wfv E v f) (wr_starts f) (wr_etag f) IH
+                    (filter (active v) (c_wr k)) [] fields body rest Hdj Htl Hio Hwf Eb
                     (or_introl (Hnp eq_refl))). reflexivity.
+  - (* any-attribute element *)
+    destruct (find_row E v t tg) as [k'|] eqn:Ef; [|discriminate].
+    destruct (row_facts t tg k' Ef) as (Htg & Hmem & Hnt). rewrite Hnt in *. cbn [negb andb] in Hwf.
+    destruct (wr_starts f tg k' y bs Hw) as [r0 Hb0].
+    assert (Het : etag tg k' y = tg) by (destruct k'; try discriminate; reflexivity).
+    rewrite Het in Hb0.
+    assert (Htk : take_exact 3 (bs ++ rest) = Some (be_enc 3 tg, tyc y :: r0 ++ rest)).
+    { rewrite Hb0, <- app_assoc. apply take_exact_app'. rewrite zlen_be_enc. reflexivity. }
+    rewrite Htk. rewrite be_dec_enc by (unfold tag_ok in Htg; rewrite p3; lia).
+    rewrite Ef, Hnt.
+    rewrite (IH tg k' y bs ltac:(unfold tag_ok'; rewrite Htg, orb_true_r; reflexivity) Hwf Hw rest). reflexivity.
+Qed.
+
+Theorem roundtrip : In v VERSIONS ->
+  forall fuel tag k x bs, tag_ok tag = true -> wfv E v fuel k x = true ->
+  wr E v fuel tag k x = Some bs -> forall rest, rd E v fuel tag k (bs ++ rest) = Some (x, rest).
+Proof.
+  intros Hv fuel tag k x bs Ht. apply roundtrip'; [exact Hv|]. unfold tag_ok'. rewrite Ht, orb_true_r. reflexivity.
 Qed.
 
 Corollary reencode : In v VERSIONS ->
@@ -528,7 +683,7 @@ Qed.
 
 Lemma items_children (wrf : Z -> kind -> value -> option bytes) (wff : kind -> value -> bool) items :
   forall pre fields body,
-  (forall tag k x b, tag_ok tag = true -> wff k x = true -> wrf tag k x = Some b -> wf_item b) ->
+  (forall tag k x b, tag_ok' tag k = true -> wff k x = true -> wrf tag k x = Some b -> wf_item b) ->
   (forall it, In it items -> item_ok E it = true) ->
   wf_items E v wff pre items fields = true ->
   wr_items wrf pre items fields = Some body ->
@@ -542,7 +697,7 @@ Proof.
     + destruct (enc_field wrf (it', fs)) as [b|] eqn:Eb; [|discriminate].
       destruct (wr_items wrf (pre ++ [fs]) items fields) as [r|] eqn:Ew; [|discriminate]. injection H as <-.
       apply andb_prop in Hall as [Hall1 Hall]. apply andb_prop in Hall1 as [Hall1 _].
-      destruct (resolve_w_ok E pre it fs it' (Hok it (or_introl eq_refl)) Er) as [Htag _].
+      destruct (resolve_w_ok E pre it fs it' (Hok it (or_introl eq_refl)) Er) as (Htag & _).
       unfold enc_field in Eb. cbn [fst snd] in Eb.
       destruct (mult_ok (i_mult it') (List.length fs)); [|discriminate].
       destruct (field_children wrf wff (i_tag it') (i_kind it') fs b) as (c1 & -> & H1);
@@ -552,12 +707,13 @@ Proof.
     + destruct fs; [|discriminate]. exact (IHi _ _ _ Hwf Hok' Hall H).
 Qed.
 
-Theorem wr_wf : In v VERSIONS -> forall fuel tag k x bs, tag_ok tag = true -> wfv E v fuel k x = true ->
+Theorem wr_wf' : In v VERSIONS -> forall fuel tag k x bs, tag_ok' tag k = true -> wfv E v fuel k x = true ->
   wr E v fuel tag k x = Some bs -> wf_item bs.
 Proof.
   intros Hv. induction fuel as [|f IH]; intros tag k x bs Ht Hwf Hw; [discriminate|].
   cbn [wr] in Hw. cbn [wfv] in Hwf.
-  destruct k as [t|e|c]; destruct x as [p|fields]; try discriminate.
+  destruct k as [t|e|c|t]; destruct x as [p|fields|tg y]; try discriminate;
+    try (unfold tag_ok' in Ht; cbn [is_tagged orb] in Ht).
   - destruct (ptype_eqb (ptype_of p) t && negb (ptype_eqb t PEnum)) eqn:Ep; [|discriminate].
     apply andb_prop in Ep as [Ept Hne]. apply ptype_eqb_eq in Ept. subst t. apply negb_true_iff in Hne.
     apply (enc_prim_wf (fun _ => false) tag p bs Ht); [|exact Hw].
@@ -574,6 +730,15 @@ Proof.
     unfold tag_ok in Ht.
     pose proof (wf_structure tag children ltac:(change (256 ^ 3) with 16777216; lia) Hch) as Hs.
     unfold zlen in *. rewrite <- !app_assoc. apply Hs. unfold TWO32 in Hr. lia.
+  - destruct (find_row E v t tg) as [k'|] eqn:Ef; [|discriminate].
+    destruct (row_facts t tg k' Ef) as (Htg & _ & Hnt). rewrite Hnt in *. cbn [negb andb] in Hwf.
+    apply (IH tg k' y bs); [unfold tag_ok'; rewrite Htg, orb_true_r; reflexivity|exact Hwf|exact Hw].
+Qed.
+
+Theorem wr_wf : In v VERSIONS -> forall fuel tag k x bs, tag_ok tag = true -> wfv E v fuel k x = true ->
+  wr E v fuel tag k x = Some bs -> wf_item bs.
+Proof.
+  intros Hv fuel tag k x bs Ht. apply wr_wf'; [exact Hv|]. unfold tag_ok'. rewrite Ht, orb_true_r. reflexivity.
 Qed.
 
 (* ---------------------------------------------------------------- decode-encode-decode for any accepted byte string *)
@@ -602,7 +767,7 @@ Qed.
 
 Definition SoundAt (rdf : Z -> kind -> bytes -> option (value * bytes))
                    (wrf : Z -> kind -> value -> option bytes) (wff : kind -> value -> bool) : Prop :=
-  forall tag k bs x rest, tag_ok tag = true -> bytes_ok bs = true -> zlen bs < TWO31 ->
+  forall tag k bs x rest, tag_ok' tag k = true -> bytes_ok bs = true -> zlen bs < TWO31 ->
     rdf tag k bs = Some (x, rest) ->
     exists used bs', bs = used ++ rest /\ 8 <= zlen used /\ wff k x = true /\
                      wrf tag k x = Some bs' /\ zlen bs' <= 2 * zlen used /\ type_byte_is bs (tyc x).
@@ -613,16 +778,16 @@ Variable wrf : Z -> kind -> value -> option bytes.
 Variable wff : kind -> value -> bool.
 Hypothesis Hsound : SoundAt rdf wrf wff.
 
-Lemma rd_many_sound tag k : tag_ok tag = true -> forall lfuel bs xs rest,
+Lemma rd_many_sound (nxt : bytes -> bool) tag k : tag_ok' tag k = true -> forall lfuel bs xs rest,
   bytes_ok bs = true -> zlen bs < TWO31 ->
-  rd_many (rdf tag k) tag lfuel bs = Some (xs, rest) ->
+  rd_many (rdf tag k) nxt lfuel bs = Some (xs, rest) ->
   exists used bs', bs = used ++ rest /\ forallb (wff k) xs = true /\
                    opt_concat (map (wrf tag k) xs) = Some bs' /\ zlen bs' <= 2 * zlen used.
 Proof.
   intros Ht. induction lfuel as [|lf IH]; intros bs xs rest Hok Hs H; [discriminate|].
-  cbn [rd_many] in H. destruct (is_tag_next tag bs).
+  cbn [rd_many] in H. destruct (nxt bs).
   - destruct (rdf tag k bs) as [[x r]|] eqn:E1; [|discriminate].
-    destruct (rd_many (rdf tag k) tag lf r) as [[xs' r']|] eqn:E2; [|discriminate].
+    destruct (rd_many (rdf tag k) nxt lf r) as [[xs' r']|] eqn:E2; [|discriminate].
     injection H as <- <-.
     destruct (Hsound tag k bs x r Ht Hok Hs E1) as (u1 & b1 & -> & Hu1 & Hw1 & Hb1 & Hl1 & _).
     apply bytes_ok_app in Hok as [_ Hokr]. rewrite zlen_app in Hs. pose proof (zlen_nonneg u1).
@@ -633,7 +798,7 @@ Proof.
   - injection H as <- <-. exists [], []. cbn. repeat split; try reflexivity; try (unfold zlen; cbn; lia).
 Qed.
 
-Lemma rd_counted_sound tag k : tag_ok tag = true -> forall fuel n bs xs rest,
+Lemma rd_counted_sound tag k : tag_ok' tag k = true -> forall fuel n bs xs rest,
   bytes_ok bs = true -> zlen bs < TWO31 ->
   rd_counted (rdf tag k) fuel n bs = Some (xs, rest) ->
   exists used bs', bs = used ++ rest /\ forallb (wff k) xs = true /\
@@ -656,9 +821,9 @@ Proof.
       split; [rewrite !zlen_app; lia|]. cbn [List.length]. lia.
 Qed.
 
-Lemma rd_field_sound it cnt bs fs rest : tag_ok (i_tag it) = true ->
+Lemma rd_field_sound (nxt : bytes -> bool) it cnt bs fs rest : tag_ok' (i_tag it) (i_kind it) = true ->
   bytes_ok bs = true -> zlen bs < TWO31 ->
-  rd_field (rdf (i_tag it) (i_kind it)) it cnt bs = Some (fs, rest) ->
+  rd_field (rdf (i_tag it) (i_kind it)) nxt it cnt bs = Some (fs, rest) ->
   exists used bs', bs = used ++ rest /\ forallb (wff (i_kind it)) fs = true /\
                    enc_field wrf (it, fs) = Some bs' /\ zlen bs' <= 2 * zlen used /\
                    count_ok it cnt (List.length fs) = true /\
@@ -666,22 +831,22 @@ Lemma rd_field_sound it cnt bs fs rest : tag_ok (i_tag it) = true ->
 Proof.
   intros Ht Hok Hs H. unfold rd_field in H. unfold enc_field, count_ok. cbn [fst snd].
   destruct (i_mult it) eqn:Em.
-  - destruct (is_tag_next (i_tag it) bs); [|discriminate].
+  - destruct (nxt bs); [|discriminate].
     destruct (rdf (i_tag it) (i_kind it) bs) as [[x r]|] eqn:E1; [|discriminate]. injection H as <- <-.
     destruct (Hsound _ _ bs x r Ht Hok Hs E1) as (u1 & b1 & -> & Hu1 & Hw1 & Hb1 & Hl1 & Hty).
     exists u1, b1. cbn. rewrite Hw1, Hb1, app_nil_r. repeat split; try reflexivity; try assumption.
     intros _. exists x. split; [reflexivity|exact Hty].
-  - destruct (is_tag_next (i_tag it) bs).
+  - destruct (nxt bs).
     + destruct (rdf (i_tag it) (i_kind it) bs) as [[x r]|] eqn:E1; [|discriminate]. injection H as <- <-.
       destruct (Hsound _ _ bs x r Ht Hok Hs E1) as (u1 & b1 & -> & Hu1 & Hw1 & Hb1 & Hl1 & _).
       exists u1, b1. cbn. rewrite Hw1, Hb1, app_nil_r. repeat split; try reflexivity; try assumption. discriminate.
     + injection H as <- <-. exists [], []. cbn. repeat split; try reflexivity; try (unfold zlen; cbn; lia). discriminate.
   - cbn [mult_ok].
-    destruct (rd_many_sound (i_tag it) (i_kind it) Ht _ bs fs rest Hok Hs H) as (u & b & -> & Hw & Hb & Hl).
+    destruct (rd_many_sound nxt (i_tag it) (i_kind it) Ht _ bs fs rest Hok Hs H) as (u & b & -> & Hw & Hb & Hl).
     exists u, b. repeat split; try assumption. discriminate.
-  - destruct (rd_many (rdf (i_tag it) (i_kind it)) (i_tag it) (S (List.length bs)) bs) as [[xs r]|] eqn:Em1; [|discriminate].
+  - destruct (rd_many (rdf (i_tag it) (i_kind it)) nxt (S (List.length bs)) bs) as [[xs r]|] eqn:Em1; [|discriminate].
     destruct xs as [|x xs]; [discriminate|]. injection H as <- <-.
-    destruct (rd_many_sound (i_tag it) (i_kind it) Ht _ bs (x :: xs) r Hok Hs Em1) as (u & b & -> & Hw & Hb & Hl).
+    destruct (rd_many_sound nxt (i_tag it) (i_kind it) Ht _ bs (x :: xs) r Hok Hs Em1) as (u & b & -> & Hw & Hb & Hl).
     exists u, b. cbn [mult_ok List.length Nat.leb]. repeat split; try assumption. discriminate.
   - destruct cnt as [n|]; [|discriminate].
     destruct (rd_counted_sound (i_tag it) (i_kind it) Ht _ n bs fs rest Hok Hs H) as (u & b & -> & Hw & Hb & Hl & Hn).
@@ -725,10 +890,10 @@ Proof.
     assert (Hok' : forall it', In it' items -> item_ok E it' = true) by (intros; apply Hok; right; assumption).
     pose proof (Hok it (or_introl eq_refl)) as Hokit.
     destruct (resolve_r pre it bs) as [it'| |] eqn:Er; [| |discriminate].
-    + destruct (rd_field (rdf (i_tag it') (i_kind it')) it' (item_count E v pre it) bs) as [[f r]|] eqn:E1; [|discriminate].
+    + destruct (rd_field (rdf (i_tag it') (i_kind it')) (next_ok E it') it' (item_count E v pre it) bs) as [[f r]|] eqn:E1; [|discriminate].
       destruct (rd_items E v rdf (pre ++ [f]) items r) as [[fs r']|] eqn:E2; [|discriminate]. injection H as <- <-.
-      destruct (resolve_r_ok E pre it bs it' Hokit Er) as [Htag Hmult].
-      destruct (rd_field_sound it' _ bs f r Htag Hbs Hs E1) as (u1 & b1 & Hu & Hw1 & Hb1 & Hl1 & Hc1 & Hreq).
+      destruct (resolve_r_ok E pre it bs it' Hokit Er) as (Htag & Hmult & _).
+      destruct (rd_field_sound (next_ok E it') it' _ bs f r Htag Hbs Hs E1) as (u1 & b1 & Hu & Hw1 & Hb1 & Hl1 & Hc1 & Hreq).
       pose proof (resolve_agree_rd pre it bs it' f Hokit Er Hreq) as Hrw.
       subst bs.
       apply bytes_ok_app in Hbs as [_ Hokr]. rewrite zlen_app in Hs. pose proof (zlen_nonneg u1).
@@ -749,7 +914,7 @@ Theorem rd_sound : In v VERSIONS -> forall fuel, SoundAt (rd E v fuel) (wr E v f
 Proof.
   intros Hv. induction fuel as [|f IH]; intros tag k bs x rest Ht Hok Hs H; [discriminate|].
   cbn [rd] in H.
-  destruct k as [t|e|c].
+  destruct k as [t|e|c|t]; try (unfold tag_ok' in Ht; cbn [is_tagged orb] in Ht).
   - destruct (ptype_eqb t PEnum) eqn:Ene; [discriminate|].
     destruct (dec_prim (fun _ => false) t tag bs) as [[p r]|] eqn:Ed; [|discriminate]. injection H as <- <-. cbn [wr wfv].
     assert (Htb : type_byte_is bs (type_code t)).
@@ -820,6 +985,14 @@ Proof.
       apply (Hmk usedsub fields rest0 body usedsub ltac:(lia)
                  ltac:(rewrite Hsubeq, zlen_app; pose proof (zlen_nonneg rest0); lia) Hlb Hwff Hbody).
       rewrite <- app_assoc. f_equal. exact Hsubeq.
+  - (* any-attribute element *)
+    destruct (take_exact 3 bs) as [[tb rb]|] eqn:Etk; [|discriminate].
+    destruct (find_row E v t (be_dec tb)) as [k'|] eqn:Ef; [|discriminate].
+    destruct (row_facts t _ k' Ef) as (Htg & _ & Hnt). rewrite Hnt in H.
+    destruct (rd E v f (be_dec tb) k' bs) as [[y r]|] eqn:Er; [|discriminate]. injection H as <- <-.
+    destruct (IH (be_dec tb) k' bs y r ltac:(unfold tag_ok'; rewrite Htg, orb_true_r; reflexivity) Hok Hs Er)
+      as (used & bs' & -> & Hu & Hwf & Hw & Hl & Hty).
+    exists used, bs'. cbn [wr wfv tyc]. rewrite Ef, Hnt. cbn [negb andb]. repeat split; assumption.
 Qed.
 
 (* the statement the property asks for: for any byte string the decoder accepts,
@@ -831,7 +1004,8 @@ Theorem dec_enc_dec_struct : In v VERSIONS ->
               forall rest', rd E v fuel tag k (bs' ++ rest') = Some (x, rest').
 Proof.
   intros Hv fuel tag k bs x rest Ht Hok Hs H.
-  destruct (rd_sound Hv fuel tag k bs x rest Ht Hok Hs H) as (used & bs' & _ & _ & Hwf & Hw & _).
+  assert (Ht' : tag_ok' tag k = true) by (unfold tag_ok'; rewrite Ht, orb_true_r; reflexivity).
+  destruct (rd_sound Hv fuel tag k bs x rest Ht' Hok Hs H) as (used & bs' & _ & _ & Hwf & Hw & _).
   exists bs'. split; [exact Hw|]. intros rest'. exact (roundtrip Hv fuel tag k x bs' Ht Hwf Hw rest').
 Qed.
 
